@@ -116,7 +116,9 @@ func (b *c07Batch) build() (arrow.RecordBatch, error) {
 	}
 	var payload []byte
 	if b.Unreadable {
-		payload = []byte("this is not an arrow ipc stream")
+		// not an IPC stream, and short: arrow's reader takes the first four bytes of a longer
+		// garbage string as a message length and allocates that much before it fails
+		payload = []byte{0xff, 0xff, 0xff, 0xff, 0x10, 0x00, 0x00, 0x00, 0x01, 0x02, 0x03}
 	} else {
 		in, err := b.Inner.build()
 		if err != nil {
